@@ -356,6 +356,40 @@ func genCfg(r *R) Cfg {
 		}
 		c.ResponseHeaders = shuffled(r, c.ResponseHeaders)
 	}
+	// once in a while one list is HUGE (size-dependent code paths: splitting of long
+	// header lines, caps, pooled buffers, big trees)
+	if r.P(0.025) {
+		switch r.Intn(4) {
+		case 0:
+			if !(len(c.ResponseHeaders) == 1 && c.ResponseHeaders[0] == "*") {
+				for i, n := 0, r.Range(220, 420); i < n; i++ {
+					c.ResponseHeaders = append(c.ResponseHeaders, fmt.Sprintf("X-Exposed-%04d-%s", i, randLabel(r, 6)))
+				}
+			}
+		case 1:
+			star := false
+			for _, h := range c.RequestHeaders {
+				star = star || h == "*"
+			}
+			if !star {
+				for i, n := 0, r.Range(120, 300); i < n; i++ {
+					c.RequestHeaders = append(c.RequestHeaders, fmt.Sprintf("x-req-%04d-%s", i, randLabel(r, 6)))
+				}
+			}
+		case 2:
+			if len(c.Origins) > 0 && c.Origins[0] != "*" && !(c.Credentialed || c.PNA || c.PNANoCors) {
+				for i, n := 0, r.Range(100, 300); i < n; i++ {
+					c.Origins = append(c.Origins, "https://"+randDomain(r))
+				}
+			}
+		default:
+			if !(len(c.Methods) > 0 && c.Methods[0] == "*") {
+				for i, n := 0, r.Range(40, 90); i < n; i++ {
+					c.Methods = append(c.Methods, fmt.Sprintf("M%d%s", i, randLabel(r, 4)))
+				}
+			}
+		}
+	}
 	c.MaxAge = pick(r, vocabMaxAge)
 	if r.P(0.35) {
 		c.MaxAge = pick(r, []int{r.Range(1, 86400), r.Range(1, 100), 7200, 86399, 2, 4, 6})
@@ -530,6 +564,14 @@ func originsFor(c Cfg) (match, miss []string) {
 		addM(pp.Scheme + "://" + host + port)
 		if pp.Wild {
 			addM(pp.Scheme + "://a.b." + pp.Host + port)
+			// the wildcard stands for SEVERAL labels: each legal (<= 63 bytes), together
+			// long; and one label of exactly 63 bytes
+			if deep := "feature-new-checkout-flow-2.pr-1234.preview.eu-central-1.staging." + pp.Host; len(deep) <= 253 {
+				addM(pp.Scheme + "://" + deep + port)
+			}
+			if l63 := strings.Repeat("l", 63) + "." + pp.Host; len(l63) <= 253 {
+				addM(pp.Scheme + "://" + l63 + port)
+			}
 			addX(pp.Scheme + "://" + pp.Host + port)         // shallower: the base itself
 			addX(pp.Scheme + "://sub" + pp.Host + port)      // no dot
 			addX(pp.Scheme + "://." + pp.Host + port)        // empty label
